@@ -302,6 +302,12 @@ def check_e2e(rep, known, scns, info, stats):
     ctx = multiprocessing.get_context("fork")
     with ctx.Pool(nproc) as pool:
         impl = pool.map(_run_scn, [(exe, s) for s in scns], chunksize=1)
+    # the machine may be heavily loaded (time-outs of the barrier, connection refused while the daemon starts): an
+    # infrastructure failure is retried once, serially, before it is reported
+    for k, r in enumerate(impl):
+        if r[0] == "exc" or (r[0] == "ok" and "X=barrier-lost" in r[1]):
+            stats["retried"] = stats.get("retried", 0) + 1
+            impl[k] = _run_scn((exe, scns[k]))
     nops, nontriv = 0, set()
     for scn, line, m, r in zip(scns, lines, model, impl):
         replay = {"scenario": scn, "config": pe.to_xml(scn)}
@@ -448,7 +454,7 @@ def run(ctx):
                 "1-6 <policy> elements, invalid attribute combinations at a low rate) with 3-4 clients of different uid/group sets, match rules, name requests (queues) and "
                 "8-24 probe messages; one comparison per operation, non-trivial = the probe was delivered to somebody or AccessDenied was returned",
         "samples": samples,
-        "input_distribution": {"decision_cases": ndec, "e2e_scenarios": stats["e2e_scn"], "e2e_operations": nops, "config_errors_agreed": stats["cfgerr"],
+        "input_distribution": {"decision_cases": ndec, "e2e_scenarios": stats["e2e_scn"], "e2e_operations": nops, "config_errors_agreed": stats["cfgerr"], "infrastructure_retries": stats.get("retried", 0),
                                "corpus": ncorpus, "known_finding_hits": stats["known"]},
         "traces_validated_against_impl": ndec + nops, "disagreements_checked": len(rep.violations), "exhaustive": False,
         "explanation": "theorems: the model of bus/policy.c equals the manual-page semantics (last matching rule, context order, every attribute) for all rule lists, "
